@@ -147,6 +147,35 @@ func Statement(g *G) Stmt {
 	if g.F.Flat && k >= 15 && k < 18 {
 		k = 0 // UPDATE has SET after its first token
 	}
+	if (g.F.DDL || g.F.Merge) && !g.F.Flat && g.chance(30, "ddl_or_merge") {
+		var kinds []string
+		if g.F.Merge {
+			kinds = append(kinds, "merge", "merge")
+		}
+		if g.F.DDL {
+			kinds = append(kinds, "create_table", "create_table", "create_index", "create_view", "create_materialized_view", "drop", "truncate", "refresh")
+		}
+		kind = kinds[g.intn(len(kinds), "ddlkind")]
+		switch kind {
+		case "merge":
+			t, n = g.Merge()
+		case "create_table":
+			t, n = g.CreateTable()
+		case "create_index":
+			t, n = g.CreateIndex()
+		case "create_view":
+			t, n = g.CreateView()
+		case "create_materialized_view":
+			t, n = g.CreateMatView()
+		case "drop":
+			t, n = g.Drop()
+		case "truncate":
+			t, n = g.Truncate()
+		default:
+			t, n = g.Refresh()
+		}
+		return Stmt{Toks: t, Node: n, Kind: kind, Names: g.Names, Stats: g.Stats}
+	}
 	switch {
 	case k < 12:
 		t, n = g.Query(false)
